@@ -13,6 +13,8 @@
 #include "io_util.hpp"
 #include "../c02_enc_o5m.hpp"
 
+#include <osmium/io/input_iterator.hpp>
+
 #include <atomic>
 #include <cerrno>
 #include <chrono>
@@ -151,6 +153,8 @@ void case_read(uint64_t idx, vh::Rng& rng) {
     // internal timeout of the pipeline (not for PBF: a PBF file is read by the parser from a seekable fd)
     const bool stall = fmt >= F_XML && from_file && rng.chance(1, 25);
     const int consumer = static_cast<int>(rng.below(3));   // 0 fast, 1 yields, 2 sleeps
+    const bool via_iterator = rng.chance(1, 5);
+    const int iter_style = static_cast<int>(rng.below(3));   // 0 *it++, 1 retained copy, 2 *it; ++it
     const uint32_t permille = rng.pick(std::vector<uint32_t>{0, 50, 300, 700});
     ::setenv("OSMIUM_MAX_INPUT_QUEUE_SIZE", std::to_string(inq).c_str(), 1);
     ::setenv("OSMIUM_MAX_OSMDATA_QUEUE_SIZE", std::to_string(outq).c_str(), 1);
@@ -159,7 +163,7 @@ void case_read(uint64_t idx, vh::Rng& rng) {
     vhk::hs().max_queue_depth = 0;
     const std::string cfg = vh::fmt("%s pool=%d workq=%zu inq=%d outq=%d pbf_pool=%d %s mask=%u %s %s consumer=%d perturb=%u",
                                     FMT_NAME[fmt], nthreads, workq, inq, outq, pbf_pool, single ? "single" : "any", mask, nometa ? "nometa" : "meta",
-                                    stall ? "stalling-fifo" : from_file ? "file" : "memory", consumer, permille);
+                                    stall ? "stalling-fifo" : from_file ? "file" : "memory", consumer, permille) + (via_iterator ? vh::fmt(" via-InputIterator(style %d)", iter_style) : std::string{});
     vh::set_case_desc("%s objects=%zu bytes=%zu", cfg.c_str(), D.size(), bytes.size());
 
     std::vector<mdl::Obj> got;
@@ -197,6 +201,20 @@ void case_read(uint64_t idx, vh::Rng& rng) {
             if (from_file) reader.reset(new osmium::io::Reader{osmium::io::File{path, fmt_suffix(fmt)}, pool, bits, bt, rm});
             else reader.reset(new osmium::io::Reader{osmium::io::File{bytes.data(), bytes.size(), fmt_suffix(fmt)}, pool, bits, bt, rm});
             (void)reader->header();
+            if (via_iterator) {
+                // consume through the InputIterator, the way user code walks a Reader: post-increment
+                // with dereference of the returned copy, and a retained copy of the previous position
+                // (both must stay valid while the original moves on into the next buffer)
+                using It = osmium::io::InputIterator<osmium::io::Reader, const osmium::OSMEntity>;
+                It it{*reader}, end{};
+                while (it != end) {
+                    if (iter_style == 0) { got.push_back(mdl::from_entity(*it++)); }
+                    else if (iter_style == 1) { It keep = it; ++it; got.push_back(mdl::from_entity(*keep)); }
+                    else { got.push_back(mdl::from_entity(*it)); ++it; }
+                    if ((got.size() & 63) == 0) vh::heartbeat();
+                }
+                nbuffers = 21;   // (not observable through the iterator)
+            } else
             while (osmium::memory::Buffer buffer = reader->read()) {
                 ++nbuffers;
                 const size_t before = got.size();
@@ -265,7 +283,8 @@ void case_read(uint64_t idx, vh::Rng& rng) {
     if (nometa) vh::count("read_meta_no_runs");
     if (mask != 15U) vh::count("masked_runs");
     if (single) vh::count("single_type_buffer_runs");
-    if (nbuffers > 20) vh::count("runs_with_more_than_20_buffers");
+    if (via_iterator) vh::count("runs_through_input_iterator");
+    if (nbuffers > 20 && !via_iterator) vh::count("runs_with_more_than_20_buffers");
     vh::cover("format", FMT_NAME[fmt]);
     vh::cover("pool_size", std::to_string(nthreads));
     vh::cover("entity_mask", std::to_string(mask));
